@@ -1,0 +1,17 @@
+//go:build verif
+
+package value
+
+import "unsafe"
+
+// VerifListState reports the representation state of a list without touching it: len and cap of the
+// items slice, whether the items are present, and the address of the first cell of the slice (used
+// only to recognise which lists share a backing array).
+func VerifListState(l *List) (length, capacity int, present bool, data uintptr) {
+	return len(l.items), cap(l.items), l.itemsPresent, uintptr(unsafe.Pointer(unsafe.SliceData(l.items)))
+}
+
+// VerifListItems returns a copy of the items slice as it is (no evaluation is triggered).
+func VerifListItems(l *List) []Value {
+	return append([]Value(nil), l.items...)
+}
